@@ -416,7 +416,7 @@ Definition plan_wf (te : tyenv) (pl : plan) (b : bound) : bool :=
 Record obs := mkObs {
   o_bind : res unit;
   o_order : list (nat * nat * nat * bool);        (* pid, class, group, include *)
-  o_rmaps : list (nat * list (nat * nat) * list (nat * nat));   (* included providers: pid, inputs>source type, received>source type *)
+  o_rmaps : list (nat * list (nat * nat) * list (nat * nat) * list (nat * nat));   (* included providers: pid, inputs>source, received>source, init returns>source *)
   o_results : list sres;
   o_log : list event;
   o_wf : bool                                     (* plan_wf: hypotheses of the refinement theorem *)
@@ -440,7 +440,8 @@ Definition model_run (c : bcase) : obs :=
           (map (fun p => (p_pid p, class_code (p_class p), group_code (p_group p), p_include p)) (pl_funcs pl))
           (flat_map (fun p => if p_include p then
                        [(p_pid p, rmap_view (p_downR p) (pflow p FIn) (te_noT te),
-                                  rmap_view (p_upR p) (pflow p FRecv) (te_noT te))] else []) (pl_funcs pl))
+                                  rmap_view (p_upR p) (pflow p FRecv) (te_noT te),
+                                  rmap_view (p_bypassR p) (pflow p FBypass) (te_noT te))] else []) (pl_funcs pl))
           results (rev (sw_log (ss_w sw s))) (plan_wf te pl b)
   end.
 
